@@ -459,6 +459,7 @@ func (p *vfIdP) ServeHTTP(rw http.ResponseWriter, r *http.Request) {
 		call.Endpoint = "jwks"
 	case "/token":
 		call.Endpoint = "token:" + map[string]string{"authorization_code": "code", "refresh_token": "refresh"}[form.Get("grant_type")]
+		call.Verifier = form.Get("code_verifier") // recorded for every token request, also one that is answered with a fault
 	case "/userinfo":
 		call.Endpoint = "userinfo"
 	case "/plain/token":
